@@ -152,6 +152,15 @@ type GEM struct {
 
 	rwType   *types.Named // generator.RangeWriter
 	exprType *types.Named // parser.Expression
+
+	pre [][]Part // text evaluated where it was written (see prefolded)
+}
+
+// prefolded stands for a string expression that was evaluated in the environment it was written in (a field of a
+// descriptor that a constructor function builds from its locals): fold gives the parts back.
+func (g *GEM) prefolded(ps []Part) ast.Expr {
+	g.pre = append(g.pre, ps)
+	return &ast.BadExpr{From: token.Pos(-len(g.pre)), To: token.Pos(-len(g.pre))}
 }
 
 const litBufferSrc = "<pending-literal>"
@@ -272,6 +281,9 @@ type env struct {
 	flits   map[types.Object]*litVal             // function-typed local or parameter → the function literal it holds, with the environment it was written in
 	galias  map[types.Object]Part                // local that received the fresh variable name a helper generated and returned → that name
 	bools   map[types.Object]bool                // boolean local whose value is known here (computed from known text: checked := form.typed == "")
+	rowParts map[types.Object]map[string][]Part  // loop variable of an unrolled table → text fields already evaluated where the table was written
+	tabs     map[types.Object][]tableRow          // slice-typed parameter or loop variable → the table of lines it holds
+	tabLists map[types.Object][][]tableRow        // parameter holding several such tables (blocks ...[]codeLine)
 }
 
 type litVal struct {
@@ -280,12 +292,21 @@ type litVal struct {
 }
 
 func newEnv() *env {
-	return &env{vals: map[types.Object][]Part{}, genvars: map[types.Object]bool{}, rows: map[types.Object]map[string]ast.Expr{}, alias: map[types.Object]string{}, fvals: map[types.Object][]ast.Expr{}, flits: map[types.Object]*litVal{}, galias: map[types.Object]Part{}, bools: map[types.Object]bool{}}
+	return &env{vals: map[types.Object][]Part{}, genvars: map[types.Object]bool{}, rows: map[types.Object]map[string]ast.Expr{}, alias: map[types.Object]string{}, fvals: map[types.Object][]ast.Expr{}, flits: map[types.Object]*litVal{}, galias: map[types.Object]Part{}, bools: map[types.Object]bool{}, rowParts: map[types.Object]map[string][]Part{}, tabs: map[types.Object][]tableRow{}, tabLists: map[types.Object][][]tableRow{}}
 }
 func (e *env) clone() *env {
 	n := newEnv()
 	for k, v := range e.rows {
 		n.rows[k] = v
+	}
+	for k, v := range e.rowParts {
+		n.rowParts[k] = v
+	}
+	for k, v := range e.tabs {
+		n.tabs[k] = v
+	}
+	for k, v := range e.tabLists {
+		n.tabLists[k] = v
 	}
 	for k, v := range e.alias {
 		n.alias[k] = v
@@ -705,20 +726,39 @@ func (ev *gemEval) stmt(s ast.Stmt, e *env) []Node {
 	case *ast.RangeStmt:
 		// a loop over an immutable package-level table of constants (strings, or structs of constants) is unrolled: the
 		// emission is the same as if the statements were written out one after the other
-		if rows := ev.constTable(s.X); rows != nil {
+		if xid, ok := ast.Unparen(s.X).(*ast.Ident); ok {
+			// several tables handed over together (blocks ...[]codeLine): one after the other
+			if lists, ok := e.tabLists[ev.info().ObjectOf(xid)]; ok {
+				if val, ok := s.Value.(*ast.Ident); ok && val.Name != "_" && !hasBranchStmt(s.Body) {
+					var out []Node
+					vobj := ev.info().ObjectOf(val)
+					for _, tb := range lists {
+						e.tabs[vobj] = tb
+						out = append(out, ev.block(s.Body.List, e)...)
+					}
+					delete(e.tabs, vobj)
+					return out
+				}
+			}
+		}
+		if rows := ev.constTable(s.X, e); rows != nil {
 			if val, ok := s.Value.(*ast.Ident); ok && val.Name != "_" && !hasBranchStmt(s.Body) {
 				var out []Node
 				vobj := ev.info().ObjectOf(val)
 				for _, row := range rows {
 					if row.str != nil {
 						e.vals[vobj] = []Part{{Kind: PConst, Const: *row.str}}
+					} else if row.strParts != nil {
+						e.vals[vobj] = row.strParts
 					} else {
 						e.rows[vobj] = row.fields
+						e.rowParts[vobj] = row.parts
 					}
 					out = append(out, ev.block(s.Body.List, e)...)
 				}
 				delete(e.vals, vobj)
 				delete(e.rows, vobj)
+				delete(e.rowParts, vobj)
 				return out
 			}
 		}
@@ -1130,6 +1170,54 @@ func (ev *gemEval) descValues(x ast.Expr, e *env, depth int) []map[string]ast.Ex
 			if info.Defs[fd.Name] != types.Object(fn) || fd.Body == nil {
 				continue
 			}
+			// a constructor that computes some text into locals and then returns the literal: the statements before the
+			// (only) return are evaluated, and the text fields with what they leave
+			if n := len(fd.Body.List); n >= 2 && fd.Recv == nil && !v.Ellipsis.IsValid() {
+				if ret, isRet := fd.Body.List[n-1].(*ast.ReturnStmt); isRet && len(ret.Results) == 1 {
+					if lit, isLit := ast.Unparen(ret.Results[0]).(*ast.CompositeLit); isLit {
+						nret := 0
+						ast.Inspect(fd.Body, func(m ast.Node) bool {
+							if _, isR := m.(*ast.ReturnStmt); isR {
+								nret++
+							}
+							return true
+						})
+						if ds := ev.descValues(lit, newEnv(), depth+1); nret == 1 && len(ds) == 1 {
+							e2 := newEnv()
+							i, bound := 0, true
+							for _, prm := range fd.Type.Params.List {
+								for _, nm := range prm.Names {
+									if i >= len(v.Args) {
+										bound = false
+										break
+									}
+									if t := info.TypeOf(prm.Type); t != nil && isStringType(t) {
+										e2.vals[info.Defs[nm]] = ev.fold(v.Args[i], e)
+									} else if b, isB := t.Underlying().(*types.Basic); isB && b.Kind() == types.Bool {
+										if val, known := ev.constCond(v.Args[i], e); known {
+											e2.bools[info.Defs[nm]] = val
+										}
+									}
+									i++
+								}
+							}
+							sub := &gemEval{g: ev.g, gf: ev.gf, depth: ev.depth + 1}
+							if bound && len(sub.block(fd.Body.List[:n-1], e2)) == 0 {
+								row := ds[0]
+								for k, fe := range row {
+									if k == "·descriptor" {
+										continue
+									}
+									if tv, has := info.Types[fe]; has && tv.Value == nil && isStringType(tv.Type) {
+										row[k] = ev.g.prefolded(ev.fold(fe, e2))
+									}
+								}
+								return []map[string]ast.Expr{row}
+							}
+						}
+					}
+				}
+			}
 			ast.Inspect(fd.Body, func(n ast.Node) bool {
 				if _, isLit := n.(*ast.FuncLit); isLit {
 					return false
@@ -1461,7 +1549,7 @@ func (ev *gemEval) call(call *ast.CallExpr, e *env, onEmit func(*Emit)) []Node {
 		// (a helper that is handed a descriptor of what to emit says nothing on its own: it is followed a little deeper)
 		takesDescriptor := false
 		for _, prm := range cg.Decl.Type.Params.List {
-			if t := info.TypeOf(prm.Type); t != nil && (isDescriptorType(t, ev.g.pkg.Types) || isTextFunc(t)) {
+			if t := info.TypeOf(prm.Type); t != nil && (isDescriptorType(t, ev.g.pkg.Types) || isTextFunc(t) || isLineTableType(t, ev.g.pkg.Types, 0)) {
 				takesDescriptor = true
 			}
 		}
@@ -1474,13 +1562,38 @@ func (ev *gemEval) call(call *ast.CallExpr, e *env, onEmit func(*Emit)) []Node {
 			var descCands []map[string]ast.Expr
 			for _, prm := range cg.Decl.Type.Params.List {
 				for _, nm := range prm.Names {
+					obj := info.Defs[nm]
+					if ell, variadic := prm.Type.(*ast.Ellipsis); variadic {
+						// tables of lines handed over one by one: writeLines(indent, inputLines, bufferLines)
+						if et := info.TypeOf(ell.Elt); et != nil && isLineTableType(et, ev.g.pkg.Types, 1) && !call.Ellipsis.IsValid() {
+							var lists [][]tableRow
+							for _, a := range call.Args[min(i, len(call.Args)):] {
+								tb := ev.constTable(a, e)
+								if tb == nil {
+									lists = nil
+									break
+								}
+								lists = append(lists, tb)
+							}
+							if lists != nil {
+								e2.tabLists[obj] = lists
+								textFuncArg = true
+							}
+						}
+						i = len(call.Args)
+						continue
+					}
 					if i >= len(call.Args) {
 						okBind = false
 						break
 					}
-					obj := info.Defs[nm]
 					t := info.TypeOf(prm.Type)
 					switch {
+					case t != nil && !isStringType(t) && isLineTableType(t, ev.g.pkg.Types, 1):
+						if tb := ev.constTable(call.Args[i], e); tb != nil {
+							e2.tabs[obj] = tb
+							textFuncArg = true
+						}
 					case t != nil && isStringType(t):
 						e2.vals[obj] = ev.fold(call.Args[i], e)
 					case t != nil && types.Identical(t, ev.g.exprType):
@@ -1584,6 +1697,10 @@ func (ev *gemEval) fold1(x ast.Expr, e *env) []Part {
 		return []Part{{Kind: PConst, Const: constant.StringVal(tv.Value)}}
 	}
 	switch x := x.(type) {
+	case *ast.BadExpr:
+		if k := -int(x.From) - 1; k >= 0 && k < len(ev.g.pre) {
+			return append([]Part{}, ev.g.pre[k]...)
+		}
 	case *ast.ParenExpr:
 		return ev.fold(x.X, e)
 	case *ast.BinaryExpr:
@@ -1628,16 +1745,40 @@ func (ev *gemEval) fold1(x ast.Expr, e *env) []Part {
 		}
 		if fn := calleeOf(info, x); fn != nil && fullName(fn) == "strings.ReplaceAll" && len(x.Args) == 3 {
 			// constant text with a constant placeholder replaced by known text
-			if text, ok := allConst(ev.fold(x.Args[0], e)); ok {
-				if old, ok := allConst(ev.fold(x.Args[1], e)); ok && old != "" {
+			// (text that is constant but for a choice between constants without the placeholder is replaced piecewise: the
+			// placeholder is a marker like $v that cannot straddle the pieces when neither neighbour ends or begins with
+			// a part of it — checked by requiring the placeholder's first character to be absent from the choices)
+			text := ev.fold(x.Args[0], e)
+			if old, ok := allConst(ev.fold(x.Args[1], e)); ok && old != "" {
+				piecewise := true
+				for _, p := range text {
+					switch p.Kind {
+					case PConst:
+					case PChoice:
+						for _, c := range p.Choices {
+							if strings.ContainsAny(c, old) {
+								piecewise = false
+							}
+						}
+					default:
+						piecewise = false
+					}
+				}
+				if piecewise {
 					repl := ev.fold(x.Args[2], e)
 					var out []Part
-					for i, piece := range strings.Split(text, old) {
-						if i > 0 {
-							out = append(out, repl...)
+					for _, p := range text {
+						if p.Kind != PConst {
+							out = append(out, p)
+							continue
 						}
-						if piece != "" {
-							out = append(out, Part{Kind: PConst, Const: piece})
+						for i, piece := range strings.Split(p.Const, old) {
+							if i > 0 {
+								out = append(out, repl...)
+							}
+							if piece != "" {
+								out = append(out, Part{Kind: PConst, Const: piece})
+							}
 						}
 					}
 					if len(out) == 0 {
@@ -1749,6 +1890,9 @@ func (ev *gemEval) fold1(x ast.Expr, e *env) []Part {
 	case *ast.SelectorExpr:
 		if id, ok := ast.Unparen(x.X).(*ast.Ident); ok {
 			if row, ok := e.rows[info.ObjectOf(id)]; ok {
+				if ps, ok := e.rowParts[info.ObjectOf(id)][x.Sel.Name]; ok {
+					return append([]Part{}, ps...)
+				}
 				if fe, ok := row[x.Sel.Name]; ok {
 					return ev.fold(fe, e)
 				}
@@ -2628,8 +2772,43 @@ func (g *GEM) isFreshNameFunc(fn *types.Func) bool {
 }
 
 type tableRow struct {
-	str    *string
-	fields map[string]ast.Expr
+	str      *string
+	strParts []Part // a string element that is not a constant, evaluated where the table was written
+	fields   map[string]ast.Expr
+	parts    map[string][]Part // text fields that are not constants, evaluated where the table was written
+}
+
+// isLineTableType: a slice of strings or of structs of the generator package that carry text (lines of code to
+// write), or a slice of such slices.
+func isLineTableType(t types.Type, pkg *types.Package, depth int) bool {
+	sl, ok := t.Underlying().(*types.Slice)
+	if !ok {
+		return false
+	}
+	el := sl.Elem()
+	if isStringType(el) {
+		return true
+	}
+	if depth == 0 && isLineTableType(el, pkg, 1) {
+		return true
+	}
+	nt, ok := el.(*types.Named)
+	if !ok || nt.Obj().Pkg() != pkg {
+		return false
+	}
+	st, ok := nt.Underlying().(*types.Struct)
+	if !ok {
+		return false
+	}
+	text := false
+	for i := 0; i < st.NumFields(); i++ {
+		if isStringType(st.Field(i).Type()) {
+			text = true
+		} else if _, basic := st.Field(i).Type().Underlying().(*types.Basic); !basic {
+			return false
+		}
+	}
+	return text
 }
 
 func hasBranchStmt(b *ast.BlockStmt) bool {
@@ -2645,14 +2824,57 @@ func hasBranchStmt(b *ast.BlockStmt) bool {
 
 // constTable: x names a package-level variable of the generator package that is initialised with a composite literal
 // of constant strings or of struct literals with constant fields, and is never assigned to (nor are its elements).
-func (ev *gemEval) constTable(x ast.Expr) []tableRow {
+func (ev *gemEval) constTable(x ast.Expr, e *env) []tableRow {
 	info := ev.info()
 	if lit, ok := ast.Unparen(x).(*ast.CompositeLit); ok {
-		return ev.tableRows(lit) // a table written in the range clause itself
+		return ev.tableRows(lit, e) // a table written in the range clause itself
+	}
+	// a table built by a function of the package that does nothing but return the literal: its text may use the
+	// function's string parameters (returnIfErrLines(ret))
+	if call, ok := ast.Unparen(x).(*ast.CallExpr); ok && e != nil {
+		fn := calleeOf(info, call)
+		if fn == nil || fn.Pkg() != ev.g.pkg.Types || call.Ellipsis.IsValid() {
+			return nil
+		}
+		for _, fd := range allFuncDecls(ev.g.pkg) {
+			if info.Defs[fd.Name] != types.Object(fn) || fd.Body == nil || len(fd.Body.List) != 1 || fd.Recv != nil {
+				continue
+			}
+			ret, ok := fd.Body.List[0].(*ast.ReturnStmt)
+			if !ok || len(ret.Results) != 1 {
+				return nil
+			}
+			lit, ok := ast.Unparen(ret.Results[0]).(*ast.CompositeLit)
+			if !ok {
+				return nil
+			}
+			e2 := newEnv()
+			i := 0
+			for _, prm := range fd.Type.Params.List {
+				t := info.TypeOf(prm.Type)
+				for _, nm := range prm.Names {
+					if i >= len(call.Args) || t == nil || !isStringType(t) {
+						return nil
+					}
+					e2.vals[info.Defs[nm]] = ev.fold(call.Args[i], e)
+					i++
+				}
+			}
+			if i != len(call.Args) {
+				return nil
+			}
+			return ev.tableRows(lit, e2)
+		}
+		return nil
 	}
 	id, ok := ast.Unparen(x).(*ast.Ident)
 	if !ok {
 		return nil
+	}
+	if e != nil {
+		if tb, ok := e.tabs[info.ObjectOf(id)]; ok {
+			return tb
+		}
 	}
 	v, ok := info.ObjectOf(id).(*types.Var)
 	if !ok || v.Pkg() == nil || v.Parent() != v.Pkg().Scope() {
@@ -2703,10 +2925,12 @@ func (ev *gemEval) constTable(x ast.Expr) []tableRow {
 	if !ok || mutated {
 		return nil
 	}
-	return ev.tableRows(cl)
+	return ev.tableRows(cl, nil)
 }
 
-func (ev *gemEval) tableRows(cl *ast.CompositeLit) []tableRow {
+// tableRows: the rows of a table literal. Fields are constants; with an environment, a text field may also be any
+// string expression, which is evaluated there.
+func (ev *gemEval) tableRows(cl *ast.CompositeLit, e *env) []tableRow {
 	info := ev.info()
 	var rows []tableRow
 	for _, el := range cl.Elts {
@@ -2717,6 +2941,10 @@ func (ev *gemEval) tableRows(cl *ast.CompositeLit) []tableRow {
 		}
 		rl, ok := ast.Unparen(el).(*ast.CompositeLit)
 		if !ok {
+			if t := info.TypeOf(el); e != nil && t != nil && isStringType(t) {
+				rows = append(rows, tableRow{strParts: ev.fold(el, e)})
+				continue
+			}
 			return nil
 		}
 		st, ok := info.TypeOf(rl).Underlying().(*types.Struct)
@@ -2732,7 +2960,14 @@ func (ev *gemEval) tableRows(cl *ast.CompositeLit) []tableRow {
 				name = st.Field(i).Name()
 			}
 			if tv, ok := info.Types[val]; !ok || tv.Value == nil {
-				return nil
+				if t := info.TypeOf(val); e != nil && t != nil && isStringType(t) {
+					if row.parts == nil {
+						row.parts = map[string][]Part{}
+					}
+					row.parts[name] = ev.fold(val, e)
+				} else {
+					return nil
+				}
 			}
 			row.fields[name] = val
 		}
@@ -2873,12 +3108,27 @@ func (g *GEM) parametric(gf *GFunc) bool {
 	params := map[types.Object]bool{}
 	for _, prm := range gf.Decl.Type.Params.List {
 		t := g.info.TypeOf(prm.Type)
-		if t == nil || !isStringType(t) && !isTextFunc(t) && !isDescriptorType(t, g.pkg.Types) {
+		if t == nil || !isStringType(t) && !isTextFunc(t) && !isDescriptorType(t, g.pkg.Types) && !isLineTableType(t, g.pkg.Types, 0) {
 			continue
 		}
 		for _, nm := range prm.Names {
 			params[g.info.Defs[nm]] = true
 		}
+	}
+	// the elements of a table parameter are the parameter's text too
+	for round := 0; round < 2; round++ {
+		ast.Inspect(gf.Decl.Body, func(n ast.Node) bool {
+			if rs, ok := n.(*ast.RangeStmt); ok {
+				if xid, ok := ast.Unparen(rs.X).(*ast.Ident); ok && params[g.info.ObjectOf(xid)] {
+					if t := g.info.TypeOf(rs.X); t != nil && isLineTableType(t, g.pkg.Types, 0) {
+						if vid, ok := rs.Value.(*ast.Ident); ok && vid.Name != "_" {
+							params[g.info.ObjectOf(vid)] = true
+						}
+					}
+				}
+			}
+			return true
+		})
 	}
 	if len(params) == 0 {
 		// a small wrapper around "write this expression": a parser.Expression parameter whose text is emitted directly,
